@@ -848,6 +848,23 @@ pub fn gen_c10(thorough: bool, rng: &mut Rng, out: &mut Vec<String>) {
         }
     }
     let push = |out: &mut Vec<String>, b: &[u8]| out.push(format!("gds.read {}", of_bytes(b)));
+    // string records near the record-length limit, filled with bytes that are not UTF-8, with
+    // multi-byte characters and with NULs: a reader that repairs or re-measures strings can return a
+    // library the writer then refuses
+    {
+        let rec = |rt: u8, dt: u8, body: &[u8]| -> Vec<u8> { let l = body.len() + 4; let mut v = vec![(l >> 8) as u8, l as u8, rt, dt]; v.extend_from_slice(body); v };
+        for (fill, n) in [(vec![0x80u8], 21846usize), (vec![0xFFu8], 30000), (vec![0xC3u8, 0xA9], 32764), (vec![0xE4u8, 0xB8, 0xAD], 21843), (vec![0u8], 1000), (vec![0x41u8], 65530), (vec![0xF0u8, 0x9D, 0x84, 0x9E], 16382)] {
+            let body: Vec<u8> = fill.iter().cycle().take(n * fill.len() / fill.len()).cloned().collect::<Vec<u8>>();
+            let body = if body.len() % 2 == 1 { let mut b = body; b.push(0); b } else { body };
+            let mut b = vec![];
+            b.extend(rec(0x00, 0x02, &[0, 3]));
+            b.extend(rec(0x01, 0x02, &[0u8; 24]));
+            b.extend(rec(0x02, 0x06, &body));
+            b.extend(rec(0x03, 0x05, &[0x3E, 0x41, 0x89, 0x37, 0x4B, 0xC6, 0xA7, 0xEF, 0x39, 0x44, 0xB8, 0x2F, 0xA0, 0x9B, 0x5A, 0x54]));
+            b.extend(rec(0x04, 0x00, &[]));
+            push(out, &b);
+        }
+    }
     for base in &bases {
         push(out, base);
         // every truncation point
